@@ -281,7 +281,7 @@ func c05JSONBases() []struct {
 func TestC05_Structured(t *testing.T) {
 	st := NewStats("C05", "TestC05_Structured", "enumeration: for each base document (CBOR: 6 claims maps of both profiles, a components array, a component map, 2 helper shapes; JSON: the library's own JSON of 4 claims-sets, components, component, a helper shape) every node (keys and values at every depth) x {null, undefined, empty, duplicate, delete, nest in array/map, tag, indefinite, 8-byte head, bstr-wrap, double, swap with sibling, tag18} and x a pool of ~38 replacement items of every CBOR type (JSON: 9 structural mutations x pool of 31 values incl. 300-deep nesting, 1e400, non-base64); each mutant goes to every CBOR (resp. JSON) entry point incl. the per-type unmarshal methods, both extension types and the populate helpers with flat / embedded / interface-embedded destinations, and (wrapped as payload of a correctly signed tag-18 envelope) to the four COSE entry points; the envelope itself is mutated the same way; both profile claims (CBOR -75000 and 265, JSON psa-profile and eat-profile) are set to every PAIR of pool items; after the calls made for each input a canary battery of ordinary operations on unrelated known-good values must still not panic (state left behind by failed calls). Oracle: recover() - no panic while decoding nor while validating / reading every getter / re-encoding to CBOR and JSON / verifying with 10 keys whatever was returned without error. Non-trivial = the input got past the first decoding layer (well-formed CBOR / valid JSON) or was decoded; distinct = family + input")
 	st.Exhaustive = true
-	st.Require = []string{"decoded-ok", "wellformed-rejected", "family=cbor", "family=json", "family=cose", "family=enc-cbor", "family=enc-json", "mut=null", "mut=duplicate", "mut=swap", "mut=text-length", "mut=cose-header", "mut=text-pool", "mut=signature-shape", "mut=member-pair"}
+	st.Require = []string{"decoded-ok", "wellformed-rejected", "family=cbor", "family=json", "family=cose", "family=enc-cbor", "family=enc-json", "mut=null", "mut=duplicate", "mut=swap", "mut=text-length", "mut=cose-header", "mut=text-pool", "mut=signature-shape", "mut=member-pair", "mut=escaped-member-name"}
 	defer st.Flush(t)
 	shard, shards := shardInfo()
 	idx := 0
@@ -535,6 +535,40 @@ func TestC05_Structured(t *testing.T) {
 						c.vals[i], c.vals[j] = a.clone(), b.clone()
 						c05Run(st, jsonFamilies, []byte(c.String()), "mut=member-pair").report(t)
 					}
+				}
+			}
+		}
+	}
+	// JSON member NAMES written with escape sequences (every character, or a
+	// single one), with the original value and with values of other types
+	for _, base := range c05JSONBases() {
+		root, err := parseJN(base.doc)
+		if err != nil || root.kind != 'o' {
+			continue
+		}
+		for i, key := range root.keys {
+			if key == "" {
+				continue
+			}
+			allEsc, oneEsc := "", ""
+			for ci, r := range key {
+				allEsc += fmt.Sprintf("\\u%04x", r)
+				if ci == len(key)/2 {
+					oneEsc += fmt.Sprintf("\\u%04X", r)
+				} else {
+					oneEsc += string(r)
+				}
+			}
+			for _, spelling := range []string{allEsc, oneEsc} {
+				for _, v := range append([]*jn{root.vals[i]}, jsonSwapPool()...) {
+					if !mine() {
+						continue
+					}
+					c := root.clone()
+					c.keys[i] = "\x00VERIF-KEY\x00"
+					c.vals[i] = v.clone()
+					doc := strings.Replace(c.String(), `"\u0000VERIF-KEY\u0000"`, `"`+spelling+`"`, 1)
+					c05Run(st, jsonFamilies, []byte(doc), "mut=escaped-member-name").report(t)
 				}
 			}
 		}
